@@ -10,16 +10,20 @@
 // ONE real in-process lal server and 1-3 stream names.  The workload is executed
 // 3-10 times (generated) with varying GOMAXPROCS.
 //
-// Every workload runs in a CHILD process (this test binary re-executed, built
-// with -race): the parent streams the child's stderr and turns
+// Every repetition runs in a CHILD process of its own (this test binary
+// re-executed, built with -race; a lal process has exactly one ServerManager —
+// a second one re-initialises the global logger under the feet of the first
+// one's goroutines): the parent streams the child's stderr and turns
 //   - a race detector report into `data-race@<lal function>|<lal function>`
 //     (the innermost lal functions of the two conflicting accesses, sorted),
 //   - a runtime fatal / unrecovered panic into `process-death@<lal function>`,
+//
 // and reads the child's own verdict file for
 //   - panics recovered in harness-owned session goroutines (`panic@<fn>`),
 //   - the watchdog: an API call / admission / teardown that does not return and
 //     goroutines parked on a mutex taken by lal code with the same stack in two
 //     samples (`deadlock@<lal callers>`).
+//
 // Running the workload in a child (instead of letting the race detector kill
 // the shard) lets the search continue behind known findings — all reports of
 // a run are parsed and only signatures not listed in known_findings.json are
@@ -33,7 +37,9 @@
 //
 // Not asserted: anything about delivered data, admission results, notification
 // pairing (C01-C03, C16, C17); after Dispose has been issued only "every call
-// returns" is required of lal.
+// returns and nothing panics" is required of lal.  A race report one of whose
+// accesses is made by harness code (or by harness code called from lal, e.g.
+// memconn) is a harness error, never a finding.
 package c20
 
 import (
